@@ -2,7 +2,8 @@
 ** h_string.c - explicit-state exploration of one heap String (C16; with prop=C12 the
 ** failed-operation self-loops are added on the same state graph).
 **
-** Parameters: alpha=N (alphabet {a,b,c..} size 2..4)   maxlen=L (content bound)
+** Parameters: mode=bfs|ladder (ladder: maxn=N, see "ladder" below)
+**             alpha=N (alphabet {a,b,c..} size 2..4)   maxlen=L (content bound)
 **             ulen=K (operand strings: every string of length <= K, default 2)
 **             prop=C16|C12    depth=N (0 = fixpoint)
 **
@@ -609,6 +610,217 @@ static int nontrivial(void) {
   return 0;
 }
 
+
+/* ---- ladder: every length from empty upwards, beyond the BFS bound -------------------
+** For every payload length N in 0..maxn and every prefix length P in {0,1,5,127,128}
+** each operation is executed once on a fresh heap String and compared with libc:
+**   assign(prefix+payload); concat / append(payload) onto the prefix;
+**   print_to(s, P, "%s", payload) (must return P+N) followed by append("Z");
+**   print_to(s, 0, "%s", payload) over the prefix (overwrite-and-truncate);
+**   resize(N) of prefix+payload+suffix (truncate) and of the prefix alone (grow);
+**   rem(payload) from prefix+payload+suffix; rem of an absent N+1 character operand; copy.
+** Case id (replayable): "ladder N=<n> P=<p> op=<k>".
+*/
+
+#define LCAP 4096
+static char l_prefix[LCAP], l_payload[LCAP], l_expect[LCAP], l_tmp[LCAP];
+static const char* l_suffix = "XYZ";
+static char l_label[160];
+static const char* l_opname = "";
+static int l_N;
+
+static const char* len_class(int n) {
+  /* exact relation to a power of two >= 64 when within one of it, otherwise the binary magnitude */
+  static char b[32];
+  for (int k = 6; k <= 12; k++) {
+    int p = 1 << k;
+    if (n == p - 1) { snprintf(b, sizeof b, "N=2^%d-1", k); return b; }
+    if (n == p)     { snprintf(b, sizeof b, "N=2^%d", k); return b; }
+    if (n == p + 1) { snprintf(b, sizeof b, "N=2^%d+1", k); return b; }
+  }
+  int k = 0; while ((1 << (k + 1)) <= n) k++;
+  if (n == 0) return "N=0";
+  snprintf(b, sizeof b, "2^%d<=N<2^%d", k, k + 1);
+  return b;
+}
+
+static const char* LL(const char* sym) {
+  snprintf(l_label, sizeof l_label, "string-ladder/%s/%s/%s", l_opname, len_class(l_N), sym);
+  return l_label;
+}
+
+static void short_of(char* out, size_t cap, const char* s_) {
+  size_t n = strlen(s_);
+  if (n <= 40) snprintf(out, cap, "\"%s\"", s_);
+  else snprintf(out, cap, "\"%.16s...%s\" (%zu characters)", s_, s_ + n - 16, n);
+}
+
+/* full oracle on one String against the expected text; 1 = violation recorded */
+static int ladder_check(var s, const char* expect) {
+  char* v = ((struct String*)s)->val;
+  size_t el = strlen(expect);
+  char a[128], b[128];
+  if (!v) { vf_violation(LL("null-buffer"), NULL, "buffer is NULL"); return 1; }
+  size_t us = malloc_usable_size(v);
+  if (!memchr(v, 0, us)) { vf_violation(LL("not-terminated-in-allocation"), NULL, "no NUL among the %zu usable bytes, expected %zu characters", us, el); return 1; }
+  if (us < el + 1) { vf_violation(LL("allocation-too-small"), NULL, "allocation has %zu usable bytes, %zu characters + NUL expected", us, el); return 1; }
+  size_t l = len(s);
+  if (strcmp(c_str(s), expect) != 0) {
+    size_t i = 0; while (v[i] && v[i] == expect[i]) i++;
+    short_of(a, sizeof a, v); short_of(b, sizeof b, expect);
+    vf_violation(LL(strlen(v) < el && memcmp(v, expect, strlen(v)) == 0 ? "content-truncated" : "content"), NULL,
+      "c_str is %s, expected %s; first difference at offset %zu (strlen %zu, expected %zu)", a, b, i, strlen(v), el);
+    return 1;
+  }
+  if (l != el) { vf_violation(LL("len"), NULL, "len=%zu, expected %zu", l, el); return 1; }
+  var fresh = $S((char*)expect);
+  if (cmp(s, fresh) != 0 || cmp(fresh, s) != 0 || !eq(s, fresh) || neq(s, fresh)) { vf_violation(LL("cmp-eq"), NULL, "cmp/eq against a fresh String of the expected text disagree"); return 1; }
+  snprintf(l_tmp, sizeof l_tmp, "%sa", expect);
+  if (!(cmp(s, $S(l_tmp)) < 0) || !(cmp($S(l_tmp), s) > 0) || !lt(s, $S(l_tmp)) || eq(s, $S(l_tmp))) { vf_violation(LL("cmp-longer"), NULL, "cmp against expected+\"a\" is not negative"); return 1; }
+  if (el > 0) {
+    strcpy(l_tmp, expect); l_tmp[el - 1] = (char)(l_tmp[el - 1] == '!' ? '#' : '!');    /* differs in the last character only */
+    int want = strcmp(expect, l_tmp);
+    int got = cmp(s, $S(l_tmp));
+    if ((want > 0) != (got > 0) || (want < 0) != (got < 0) || eq(s, $S(l_tmp))) { vf_violation(LL("cmp-last-char"), NULL, "cmp against a string differing in the last character: %d, strcmp %d", got, want); return 1; }
+  }
+  uint64_t h = hash(s);
+  if (h != hash(fresh)) { vf_violation(LL("hash-differs-from-fresh"), NULL, "hash differs from that of a fresh String of the expected text"); return 1; }
+  if (h != murmur64a(expect, el, 0xCe110)) { vf_violation(LL("hash-not-murmur"), NULL, "hash is not MurmurHash64A of the %zu expected bytes", el); return 1; }
+  if (!mem(s, fresh)) { vf_violation(LL("mem-self-value"), NULL, "mem(s, equal string) is false"); return 1; }
+  if (!mem(s, $S(l_payload)) != !strstr(expect, l_payload)) { vf_violation(LL("mem"), NULL, "mem(s, payload) disagrees with strstr"); return 1; }
+  snprintf(l_tmp, sizeof l_tmp, "%s!", l_payload);
+  if (mem(s, $S(l_tmp))) { vf_violation(LL("mem-absent"), NULL, "mem(s, payload+\"!\") is true"); return 1; }
+  if (el >= 2 && !mem(s, $S((char*)expect + el - 2))) { vf_violation(LL("mem-tail"), NULL, "mem(s, last two characters) is false"); return 1; }
+  vf.evaluations++;
+  return 0;
+}
+
+enum { LO_ASSIGN, LO_CONCAT, LO_APPEND, LO_PRINT_END, LO_PRINT_START, LO_RESIZE_SHRINK, LO_RESIZE_GROW, LO_REM, LO_REM_ABSENT, LO_COPY, LO_N };
+static const char* lo_name[] = { "assign", "concat", "append", "print_to-at-end", "print_to-at-start", "resize-shrink", "resize-grow", "rem", "rem-absent", "copy" };
+
+static void ladder_one(int N, int P, int op) {
+  l_N = N; l_opname = lo_name[op];
+  static char ph[64]; snprintf(ph, sizeof ph, "string-ladder/%s/%s", l_opname, len_class(N)); vf.phase = ph;
+  vf_set_cur("ladder N=%d P=%d op=%d | %s with a payload of %d characters, prefix of %d", N, P, op, l_opname, N, P);
+  for (int i = 0; i < P; i++) l_prefix[i] = (char)('A' + (i * 5 + i / 26) % 26);
+  l_prefix[P] = 0;
+  for (int i = 0; i < N; i++) l_payload[i] = (char)('a' + (i * 7 + i / 26 + i / 676) % 26);
+  l_payload[N] = 0;
+  volatile int ret = -12345;
+  var e = NULL;
+  var s = NULL;
+  int bad = 0;
+  switch (op) {
+  case LO_ASSIGN:
+    snprintf(l_expect, sizeof l_expect, "%s%s", l_prefix, l_payload);
+    s = new_raw(String, $S("seed"));
+    e = VF_CATCH(assign(s, $S(l_expect)));
+    break;
+  case LO_CONCAT: case LO_APPEND:
+    snprintf(l_expect, sizeof l_expect, "%s%s", l_prefix, l_payload);
+    s = new_raw(String, $S(l_prefix));
+    if (op == LO_CONCAT) e = VF_CATCH(concat(s, $S(l_payload))); else e = VF_CATCH(append(s, $S(l_payload)));
+    break;
+  case LO_PRINT_END:
+    snprintf(l_expect, sizeof l_expect, "%s%s", l_prefix, l_payload);
+    s = new_raw(String, $S(l_prefix));
+    e = VF_CATCH(ret = print_to(s, P, "%s", $S(l_payload)));
+    if (!e && ret != P + N) { vf_violation(LL("returned-position"), NULL, "print_to(s, %d, \"%%s\", payload) returned %d, expected %d", P, (int)ret, P + N); bad = 1; }
+    if (!e && !bad) bad = ladder_check(s, l_expect);
+    if (!e && !bad) {
+      /* what follows a formatted write must land right behind it */
+      strcat(l_expect, "Z");
+      e = VF_CATCH(append(s, $S("Z")));
+    }
+    break;
+  case LO_PRINT_START:
+    if (P == 0) return;
+    snprintf(l_expect, sizeof l_expect, "%s", l_payload);
+    s = new_raw(String, $S(l_prefix));
+    e = VF_CATCH(ret = print_to(s, 0, "%s", $S(l_payload)));
+    if (!e && ret != N) { vf_violation(LL("returned-position"), NULL, "print_to(s, 0, \"%%s\", payload) over a %d character string returned %d, expected %d", P, (int)ret, N); bad = 1; }
+    break;
+  case LO_RESIZE_SHRINK:
+    snprintf(l_expect, sizeof l_expect, "%s%s%s", l_prefix, l_payload, l_suffix);
+    s = new_raw(String, $S(l_expect));
+    e = VF_CATCH(resize(s, (size_t)N));
+    l_expect[N] = 0;                            /* N <= P+N+3 always: truncation to the first N characters */
+    break;
+  case LO_RESIZE_GROW: {
+    if (N <= P) return;
+    snprintf(l_expect, sizeof l_expect, "%s", l_prefix);
+    s = new_raw(String, $S(l_prefix));
+    e = VF_CATCH(resize(s, (size_t)N));
+    if (!e) {
+      char* v = ((struct String*)s)->val; size_t us = malloc_usable_size(v);
+      if (us < (size_t)N + 1) { vf_violation(LL("allocation-too-small"), NULL, "after resize(%d) the allocation has %zu usable bytes", N, us); bad = 1; }
+      else if (!memchr(v, 0, us)) { vf_violation(LL("not-terminated-in-allocation"), NULL, "after resize(%d) no NUL inside the allocation", N); bad = 1; }
+      else if (strlen(v) < (size_t)P || strlen(v) > (size_t)N || memcmp(v, l_prefix, P) != 0) { vf_violation(LL("prefix-lost"), NULL, "resize(%d) of a %d character string: prefix not preserved or length %zu outside [%d,%d]", N, P, strlen(v), P, N); bad = 1; }
+      else snprintf(l_expect, sizeof l_expect, "%s", v);      /* padding convention is the implementation's */
+    }
+    break; }
+  case LO_REM:
+    snprintf(l_tmp, sizeof l_tmp, "%s%s%s", l_prefix, l_payload, l_suffix);
+    snprintf(l_expect, sizeof l_expect, "%s%s", l_prefix, l_suffix);
+    s = new_raw(String, $S(l_tmp));
+    e = VF_CATCH(rem(s, $S(l_payload)));
+    break;
+  case LO_REM_ABSENT: {
+    snprintf(l_expect, sizeof l_expect, "%s%s%s", l_prefix, l_payload, l_suffix);
+    s = new_raw(String, $S(l_expect));
+    static char absent[LCAP]; snprintf(absent, sizeof absent, "%s!", l_payload);
+    e = VF_CATCH(rem(s, $S(absent)));
+    if (e && e != ValueError && e != KeyError) { vf_violation(LL("wrong-exception"), NULL, "rem of an absent substring raised %s", vf_exc_name(e)); bad = 1; }
+    e = NULL;
+    break; }
+  case LO_COPY:
+    snprintf(l_expect, sizeof l_expect, "%s%s", l_prefix, l_payload);
+    s = new_raw(String, $S(l_expect));
+    e = VF_CATCH(R[1] = copy(s));
+    if (!e) {
+      if (((struct String*)R[1])->val == ((struct String*)s)->val) { vf_violation(LL("copy-shares-buffer"), NULL, "copy shares the original's buffer"); bad = 1; }
+      if (!bad) bad = ladder_check(R[1], l_expect);
+      if (!bad) { if (!eq(R[1], s) || hash(R[1]) != hash(s)) { vf_violation(LL("copy-not-equal"), NULL, "copy is not eq / hashes differently"); bad = 1; } }
+      del(R[1]); R[1] = NULL;
+    }
+    break;
+  }
+  if (e) { vf_violation(LL("raises"), NULL, "%s raised %s", l_opname, vf_exc_name(e)); bad = 1; }
+  if (!bad) bad = ladder_check(s, l_expect);
+  if (vf.replay) printf("  %s: %s\n", vf_cur, bad ? "VIOLATION" : "ok");
+  if (s) del_raw(s);
+  vf.transitions++; vf.executions++;
+  {
+    int t = P + N;
+    int near = 0;
+    for (int k = 6; k <= 12; k++) { int p = 1 << k; if ((N >= p - 1 && N <= p + 1) || (t >= p - 1 && t <= p + 1)) near = 1; }
+    if (near) vf.nontrivial++;
+  }
+  if (vf_want_sample()) vf_sample("%s", vf_cur);
+}
+
+static void ladder(void) {
+  static const int prefixes[] = { 0, 1, 5, 127, 128 };
+  int maxn = (int)vf_param_i("maxn", 300);
+  if (maxn > 1500) maxn = 1500;
+  int rN = -1, rP = -1, rop = -1;
+  if (vf.replay && sscanf(vf.replay, "ladder N=%d P=%d op=%d", &rN, &rP, &rop) != 3) { fprintf(stderr, "replay: cannot parse '%s'\n", vf.replay); _exit(2); }
+  for (int N = 0; N <= maxn; N++) {
+    for (size_t pi = 0; pi < sizeof prefixes / sizeof prefixes[0]; pi++) {
+      for (int op = 0; op < LO_N; op++) {
+        if (vf.replay && !(N == rN && prefixes[pi] == rP && op == rop)) continue;
+        vf_watchdog(30);
+        ladder_one(N, prefixes[pi], op);
+      }
+      vf.states++;
+    }
+    if (vf_deadline_hit()) { vf_note("ladder: deadline hit at N=%d", N); break; }
+  }
+  vf_watchdog(0);
+  vf_cur_valid = 0;
+  vf_extra("ladder", "\"payload lengths 0..%d x prefix lengths {0,1,5,127,128} x %d operations\"", maxn, (int)LO_N);
+}
+
 int main(int argc, char** argv) {
   vf_init(argc, argv);
   var roots[4] = { NULL, NULL, NULL, NULL };
@@ -624,6 +836,8 @@ int main(int argc, char** argv) {
   propC12 = strcmp(prop, "C12") == 0;
   do_probe = (int)vf_param_i("probe", 1);
   alias = (int)vf_param_i("alias", 0);
+
+  if (vf_param_is("mode", "ladder", "bfs")) { do_probe = 0; ladder(); vf_finish(); }
 
   { char tmp[MAXU][16]; gen_strings(tmp, &NU, UL, 16); for (int i = 0; i < NU; i++) strcpy(U[i], tmp[i]); }
   {
